@@ -25,12 +25,9 @@
   `Machine.pair`; objects that an instance shares with others (the hash object of an HMAC, the cipher object of a
   mode) are fields of the owning machine's state.
 
-  TODO(integrator) Skein / Threefish: their models are not in the tree yet.  Hook: add `namespace SkeinO` (state:
-  `G`; `__call__` = `_initstate` + `update` + `output`, every UBI/Tweak object is created per call) and
-  `namespace ThreefishO` (no scratch: `PureCipher.machine` over the Threefish model) below, handlers in
-  Driver/HistD.lean (two more cases of `hist`), the soundness lemmas in Proofs/Lemmas/ObjectsSound.lean, the per-kind
-  theorems and the two inventory obligations (`inventory_unmodelled` already pins the attribute lists: Skein `G`,
-  Threefish none) in Proofs/C10.lean, and switch the `histp` lines of tools/props/C10.py to `hist`.
+  Skein / Threefish (`SkeinO`, `ThreefishO` at the end): a Skein object keeps the chaining value `G` between calls
+  (`__call__` = `_initstate` + `update` + `output`; every UBI / Tweak object lives inside one call); a Threefish object
+  assigns nothing outside `__init__` — its extended key / tweak word lists `__k`, `__t` and tables are configuration.
 -/
 import Model.Hash
 import Model.Hmac
@@ -47,6 +44,8 @@ import Model.Mode
 import Model.ToyCipher
 import Model.Salsa
 import Model.Chacha
+import Model.Skein
+import Model.Threefish
 namespace Model.Objects
 open Model
 
@@ -974,5 +973,118 @@ def machine : Machine where
   probe := isProbe
 
 end StreamO
+
+/-! ## Skein (skein.py): configuration `Nb, No, C` (the 32-byte configuration string built once by the constructor), the
+    tree parameters `Yl, Yf, Ym` and the optional stage inputs `key, prs, PK, kdf, non`; scratch `G`, the chaining value.
+    `_initstate()` assigns `G` afresh (zeros, then one UBI per configured stage), `update` chains one more UBI (or tree)
+    from the current `G`, `__call__` = `_initstate` + `update(M,'msg',bitlen)` + `output(G)`.  The `UBI` objects (with their
+    copy of the tweak `Ts`) and the `Tweak` objects are created inside one call and dropped at its end; a new object has
+    no `G` at all (`update` before the first `_initstate` raises AttributeError). -/
+namespace SkeinO
+
+structure State where
+  cfg : Skein.Cfg
+  /-- `self.G` (absent before the first `_initstate()`) -/
+  G : Option (List Nat)
+
+inductive Op
+  | call (M : List Nat) (bitlen : Option Nat)
+  | update (M : List Nat)                           -- `update(M)`: T='msg', bitlen=None
+  | initstate                                       -- `_initstate()`, returns `self.G`
+
+def init (c : Skein.Cfg) : State := { cfg := c, G := none }
+
+/-- one `if self.x: self.update(self.x,ty)` line of `_initstate` on (the `G` assigned so far, the exception that stopped
+    the method): an UBI that raises leaves `self.G` at the value of the previous stage -/
+def runStage (acc : List Nat × Option Err) (go : Bool) (M : List Nat) (ty : String) : List Nat × Option Err :=
+  match acc.2 with
+  | some _ => acc
+  | none =>
+    if go then
+      match Skein.stage acc.1 M ty with
+      | .ok G => (G, none)
+      | .error e => (acc.1, some e)
+    else acc
+
+/-- `_initstate()`: the `G` it leaves behind (also when a stage raises half-way) and the exception -/
+def doInit (c : Skein.Cfg) : List Nat × Option Err :=
+  let a := (List.replicate c.Nb 0, none)
+  let a := runStage a (Skein.truthy c.key) (c.key.getD []) "key"
+  let a := runStage a true c.C "cfg"
+  let a := runStage a (Skein.truthy c.prs) (c.prs.getD []) "prs"
+  let a := runStage a (Skein.truthy c.PK) (c.PK.getD []) "PK"
+  let a := runStage a (Skein.truthy c.kdf) (c.kdf.getD []) "kdf"
+  runStage a (Skein.truthy c.non) (c.non.getD []) "non"
+
+/-- `update(M,'msg',bitlen)` on the current `G`: `self.G` is assigned only when the UBI / the tree hash returns -/
+def doUpdate (s : State) (M : List Nat) (bitlen : Option Nat) : State × Res :=
+  match s.G with
+  | none => (s, .error "AttributeError:G")
+  | some G =>
+    match Skein.updateMsg s.cfg G M bitlen with
+    | .ok G' => ({ s with G := some G' }, .ok .none)
+    | .error e => (s, .error e)
+
+def step (s : State) : Op → State × Res
+  | .call M bl =>
+    match (doInit s.cfg).2 with
+    | some e => ({ s with G := some (doInit s.cfg).1 }, .error e)
+    | none =>
+      match Skein.updateMsg s.cfg (doInit s.cfg).1 M bl with
+      | .error e => ({ s with G := some (doInit s.cfg).1 }, .error e)
+      | .ok G' => ({ s with G := some G' }, bytesRes (Skein.output s.cfg G'))
+  | .update M => doUpdate s M none
+  | .initstate =>
+    ({ s with G := some (doInit s.cfg).1 },
+     match (doInit s.cfg).2 with
+     | some e => .error e
+     | none => .ok (.bytes (doInit s.cfg).1))
+
+def isProbe : Op → Bool
+  | .call .. => true
+  | _ => false
+
+def machine : Machine where
+  State := State
+  Cfg := Skein.Cfg
+  Op := Op
+  cfg := State.cfg
+  init := init
+  next s op := (step s op).1
+  out s op := (step s op).2
+  reconf c _ := c
+  probe := isProbe
+
+end SkeinO
+
+/-! ## Threefish (threefish.py): every attribute is assigned by `__init__` only — `K`, `T`, `Nw`, `Nr`, the tables
+    `__pi`, `__piinv`, `__R` and the extended key / tweak word lists `__k` (Nw+1 words) and `__t` (3 words), i.e. the
+    fields of `Model.Threefish.Ctx`; `enc`/`dec`/`__ks` build new lists and new `Bits` words on every call and never
+    store into `__k`/`__t`.  The object IS its configuration: no scratch field. -/
+namespace ThreefishO
+
+structure State where
+  cfg : Threefish.Ctx
+
+inductive Op
+  | enc (M : List Nat)
+  | dec (C : List Nat)
+
+def step (s : State) : Op → State × Res
+  | .enc M => (s, bytesRes (Threefish.enc s.cfg M))
+  | .dec C => (s, bytesRes (Threefish.dec s.cfg C))
+
+def machine : Machine where
+  State := State
+  Cfg := Threefish.Ctx
+  Op := Op
+  cfg := State.cfg
+  init c := ⟨c⟩
+  next s _ := s
+  out s op := (step s op).2
+  reconf c _ := c
+  probe _ := true
+
+end ThreefishO
 
 end Model.Objects
